@@ -17,11 +17,12 @@ for f in sorted(glob.glob(os.path.join(V, "seeded", "*", "meta.json"))):
     rows.append("| %s | %s | %s | %s | %s |" % (m["id"], m["property"], "yes" if m.get("confirmed") else "NO", caught, what))
 n = len(rows); c = sum(1 for r in rows if not r.split("|")[4].strip() == "—")
 app = ["## Appendix A — seeded-change campaign", "",
-       "Fresh sub-agents were given only the text of one property and a scratch worktree of `/repo` and asked for three realistic",
-       "changes each that break the property, still compile and pass the 38 tests, with a demonstration. Every change was confirmed",
+       "Fresh sub-agents were given only the text of one property and a scratch worktree of `/repo` and asked for realistic changes",
+       "(three each in round 1, two each in rounds 2 and 3 -- ids `R2-`, `R3-`) that break the property, still compile and pass the 38",
+       "tests, with a demonstration. Every change was confirmed",
        "(`bin/mutcheck`: patch applies, existing tests pass with it, the demonstration fails with it and passes without it) and the",
        "property's quick check was run against a scratch worktree carrying the change. Kept under `seeded/<id>/`.",
-       "", "%d changes confirmed, %d detected by the quick tier of the property they target (see notes below the table for the rest)." % (n, c), "",
+       "", "%d changes confirmed, %d detected by a quick-tier check (column 4; see the notes below the table for the one that is not, and for what each round led to)." % (n, c), "",
        "| id | property | confirmed | caught by (quick) | change (first line of the author's README) |", "|---|---|---|---|---|"] + rows + [""]
 notes = os.path.join(V, "seeded", "NOTES.md")
 if os.path.exists(notes): app += [open(notes).read()]
